@@ -2,7 +2,8 @@
 From Boltons Require Import Lib.Prelude Lib.C14_Text Spec.C14_Spec Model.C14_Model Gen.C14_Gen
   Check.C14_Check Proofs.C14_Table Proofs.C14_Sh Proofs.C14_Cmd Proofs.C14_Int Proofs.C14_Int2 Proofs.C14_Int3
   Proofs.C14_Gzip Gen.C14_Src Proofs.C14_SrcEq Proofs.C14_SrcEqCmd
-  Proofs.C14_Read Proofs.C14_SrcEqSh Proofs.C14_IntM Proofs.C14_Cor.
+  Proofs.C14_Read Proofs.C14_SrcEqSh Proofs.C14_IntM Proofs.C14_Cor
+  Proofs.C14_SrcEqParse.
 Open Scope N_scope.
 
 (* (T) obligation over the table regenerated from the source on every run:
@@ -105,6 +106,15 @@ Theorem C14_int_roundtrip : forall d rd L space,
   parse_int_list (format_int_list [d] [rd] L space) [d] [rd] = Ok (sort_dedup L).
 Proof. exact parse_format_roundtrip. Qed.
 Print Assumptions C14_int_roundtrip.
+
+(* (T) the definition regenerated from the CURRENT source text of parse_int_list
+   (strip/split of the string, then the loop over the pieces translated from the
+   source with an explicit pending-exception flag: the first ValueError of int() or
+   split() wins) is the model *)
+Theorem C14_source_parse_int_list : forall s delim rdelim,
+  src_parse_int_list s delim rdelim = parse_int_list s delim rdelim.
+Proof. exact src_parse_int_list_eq. Qed.
+Print Assumptions C14_source_parse_int_list.
 
 (* parse_int_list agrees with the reference reading of EVERY well-formed range
    string (numerals and ranges in either order, blanks, empty pieces, repetitions),
